@@ -272,7 +272,21 @@ TIE = {
     'handle_tc': ['C01', 'C04', 'C06', 'C09', 'C10'],
     'store_block': ['C02', 'C07'],
     'get_ancestors': ['C02', 'C05', 'C07'],
+    'get_parent_block': ['C02', 'C05', 'C07'],
+    'mempool_verify': ['C08', 'C13'],
 }
+# messages.rs verifiers, aggregator.rs makers and entry points (tools/skelagg.py -> coq/GenAgg.v)
+TIE.update({
+    'vote_verify': ['C01', 'C04', 'C19'],
+    'block_verify': ['C01', 'C04', 'C05', 'C09'],
+    'timeout_verify': ['C01', 'C04', 'C10', 'C19'],
+    'qc_verify': ['C01', 'C04', 'C05', 'C17', 'C19'],
+    'tc_verify': ['C01', 'C03', 'C04', 'C10', 'C17'],
+    'qcmaker_append': ['C01', 'C04', 'C06', 'C19'],
+    'tcmaker_append': ['C01', 'C06', 'C10', 'C19'],
+    'add_vote': ['C01', 'C06', 'C19'],
+    'add_timeout': ['C01', 'C06', 'C10', 'C19'],
+})
 for _f, _ps in TIE.items():
     for _p in set(_ps) | {'C15'}:          # C15: the no-panic theorem is about every function of the node model
         PROPS[_p].setdefault('tie', []).append(_f)
